@@ -1,6 +1,7 @@
 """Decision sources.  GenSource draws every decision from ONE random.Random;
 ReplaySource reads the same decisions back from a recorded plan.  The engines
 only ever talk to this interface, so a replay is a pure function of the file."""
+import copy
 import random
 
 from .catalogue import ENTRIES
@@ -70,6 +71,7 @@ def draw_cfg(rng, engine):
         'p_check': rng.choice([0.0, 0.2]),
         'p_alias': rng.choice([0.03, 0.08, 0.15]),
         'yield_mean': rng.choice([30, 200, 1500, 8000]),
+        'p_repeat': rng.choice([0.0, 0.08, 0.2, 0.35]),
     }
     return cfg
 
@@ -84,6 +86,7 @@ class GenSource(object):
         self.steps_table = steps_table or {}
         self.next_id = 1
         self.made = 0
+        self.queues = {}
         w = []
         for n in NAMES:
             e = ENTRIES[n]
@@ -124,9 +127,44 @@ class GenSource(object):
                 script.append(['tick', 2.5 * eps])
         return script
 
+    def _mutate_result(self, sim, task, op_id):
+        """A documented mutator applied by the caller to an object it received from op_id."""
+        from .pool import HSTRIDE
+        pool, rng = sim.pool, self.rng
+        c = []
+        for kind in ('Angle', 'Epoch'):
+            for h, o in pool.mutable(kind, task):
+                if op_id * HSTRIDE <= h < op_id * HSTRIDE + 32:
+                    c.append((h, kind))
+        if not c:
+            return None
+        h, kind = c[rng.randrange(len(c))]
+        g = G(rng, pool, task, 0.0)
+        if kind == 'Angle':
+            r = rng.random()
+            if r < 0.4:
+                return {'name': 'Angle.set', 'recv': {'h': h}, 'args': [g.num(-359, 359)], 'kwargs': {}}
+            if r < 0.7:
+                return {'name': 'Angle.to_positive', 'recv': {'h': h}, 'args': [], 'kwargs': {}}
+            if r < 0.85:
+                return {'name': 'Angle.set_tolerance', 'recv': {'h': h}, 'args': [g.fv(10 ** rng.uniform(-6, -1))], 'kwargs': {}}
+            return {'name': 'Angle.set_radians', 'recv': {'h': h}, 'args': [g.num(-6, 6)], 'kwargs': {}}
+        return {'name': 'Epoch.set', 'recv': {'h': h}, 'args': [g.f(2.0e6, 2.9e6)], 'kwargs': {}}
+
     def make_op(self, sim, task, depth):
         rng = self.rng
         pool = sim.pool
+        q = self.queues.setdefault(task, [])
+        while q:
+            what, val = q.pop(0)
+            if what == 'mutate':
+                op = self._mutate_result(sim, task, val)
+                if op is not None:
+                    sim.count('probe.mutator_on_fresh_result_then_repeat')
+                    return self._finish(op, task, depth)
+            elif what == 'repeat':
+                sim.count('probe.call_repeated_with_equal_arguments')
+                return self._finish(copy.deepcopy(val), task, depth)
         if rng.random() < self.cfg['p_alias']:
             c = []
             for k in ('Angle', 'Epoch', 'Epoch', 'Ellipsoid'):
@@ -147,7 +185,15 @@ class GenSource(object):
             recv, args, kwargs = r
             for p in g.probes:
                 sim.count('probe.' + p)
-            return self._finish({'name': name, 'recv': recv, 'args': args, 'kwargs': kwargs}, task, depth)
+            core = {'name': name, 'recv': recv, 'args': args, 'kwargs': kwargs}
+            op = self._finish(core, task, depth)
+            if e.effect == 'pure' and rng.random() < self.cfg['p_repeat']:
+                rep = {'name': name, 'recv': copy.deepcopy(recv), 'args': copy.deepcopy(args),
+                       'kwargs': copy.deepcopy(kwargs)}
+                if rng.random() < 0.75:
+                    q.append(('mutate', op['id']))
+                q.append(('repeat', rep))
+            return op
         g = G(rng, pool, task, 0.0)
         a, k = g.angle_ctor_args()
         return self._finish({'name': 'Angle.__init__', 'recv': None, 'args': a, 'kwargs': k}, task, depth)
